@@ -91,6 +91,13 @@ type OverlapCase struct {
 	// which is routed back to handler 0 from another goroutine while the
 	// first invocation may still be running.
 	Relay bool `json:"relay,omitempty"`
+	// Onces: that many plain Once handlers of the same event type are
+	// subscribed in front of the Sequential handlers (and one more between the
+	// first two when OnceBetween is set).  They are retired by the first
+	// publishes while other publishers are in the middle of their dispatch;
+	// what they receive is C04's business, here they are neighbours.
+	Onces       int  `json:"onces,omitempty"`
+	OnceBetween bool `json:"once_between,omitempty"`
 }
 
 // Cmd is the relayed command.
@@ -207,7 +214,19 @@ func runOverlap(c *OverlapCase, k *counters) *vkit.Outcome {
 				}
 			}
 		}))...)
+		neighbour := func() {
+			eventbus.Subscribe(bus, func(Ev) {
+				runtime.Gosched()
+				runtime.Gosched()
+			}, eventbus.Once())
+		}
+		for j := 0; j < c.Onces; j++ {
+			neighbour()
+		}
 		for i, h := range c.Handlers {
+			if i == 1 && c.OnceBetween {
+				neighbour()
+			}
 			sts[i] = &hstate{sync: !h.Async, k: k, idx: i, orderMu: &orderMu, order: order}
 			subscribeSeq(bus, h, sts[i])
 		}
@@ -309,6 +328,9 @@ func runOverlap(c *OverlapCase, k *counters) *vkit.Outcome {
 	}
 	if c.CancelEvery > 0 {
 		o.Class("publishes_with_own_context_cancelled_while_queued")
+	}
+	if c.Onces > 0 || c.OnceBetween {
+		o.Class("once_handlers_retired_beside_the_sequential_handlers")
 	}
 	if c.relays() {
 		o.Class("handler_context_relayed_through_another_goroutine_back_to_the_handler")
